@@ -178,3 +178,26 @@ def default_renderings(version, opts=None):
     for k in ALL_FIELDS:
         r.setdefault(k, o.get("render_" + k, ""))
     return [r[k] for k in ALL_FIELDS]
+
+
+def settings_of_cli(opts):
+    """the Settings members (as far as toolinfo streams them) that a list of command line options sets"""
+    o = {}
+    for a in opts:
+        if a.startswith("--enable="):
+            for e in a[len("--enable="):].split(","):
+                if e in ("style", "all"):
+                    o.update(style=True, warning=True, performance=True, portability=True)
+                if e in ("warning", "performance", "portability", "information"):
+                    o[e] = True
+                if e == "all":
+                    o["information"] = True
+        elif a.startswith("-D"):
+            o["userDefines"] = (o.get("userDefines", "") + ";" if o.get("userDefines") else "") + a[2:]
+        elif a == "--force":
+            o["force"] = True
+        elif a.startswith("--max-configs="):
+            o["maxConfigs"] = int(a.split("=", 1)[1])
+        elif a.startswith("--check-level="):
+            o["checkLevel"] = {"reduced": 0, "normal": 1, "exhaustive": 2}[a.split("=", 1)[1]]
+    return o
